@@ -471,6 +471,7 @@ def _one_layer_method(ctx: Ctx, c: ClassInfo, obj: ObjV, st0: State, meth: str, 
                     if got == w:
                         out.append(ok(rule, c.qualname, inst, f"{fmt_shape(got)}{cond}", fi.loc))
                         t0 = rv.items[0]
+                        out.extend(o for o in _inner_layout_obs(c, inst.replace("sample", "forward-sample"), TensorV(()), it.pairings, ar_d, fi.loc, False) if ":weight-columns" in o.instance)  # type: ignore[attr-defined]
                         if t0.lay is not None and t0.lay[1] is not None and len(t0.lay[1]) > 1:
                             tags = [[int(x[2:]) for x in l.split("|")[1:] if x.startswith("H=")] for l, _ in t0.lay[1]]
                             if all(len(t) == 1 for t in tags):
